@@ -238,3 +238,41 @@ func VerifSegmentStableWhileRead() {
 	}
 	symapi.Reach("end")
 }
+
+// VerifM3u8VsRollover: a playlist fetched while the window rolls over is still internally
+// consistent: three consecutive entries starting at the media-sequence number.
+func VerifM3u8VsRollover() {
+	base := []int{3, 40}[symapi.Choose("base", 2)]
+	pl := NewPlaylist()
+	for i := 0; i < 3; i++ {
+		pl.segments = append(pl.segments, &segment{sequenceNo: base + i, duration: 5, file: &verifFile{}, uri: "/s/" + strconv.Itoa(base+i) + ".ts"})
+	}
+	rolls := symapi.IntRange("rolls", 1, 2)
+	symapi.Go(func() {
+		for i := 0; i < rolls; i++ {
+			pl.addSegment(&segment{sequenceNo: base + 3 + i, duration: 5, file: &verifFile{}, uri: "/s/" + strconv.Itoa(base+3+i) + ".ts"})
+		}
+	})
+	b, err := pl.M3u8("")
+	text := string(b) // the buffer goes back to the pool: take the bytes now, as the HTTP handler does
+	symapi.Quiesce()
+	symapi.Assert(err == nil, "playlist-served")
+	lines := strings.Split(text, "\n")
+	mseq := -1
+	var nums []int
+	for _, l := range lines {
+		if strings.HasPrefix(l, "#EXT-X-MEDIA-SEQUENCE:") {
+			mseq, _ = strconv.Atoi(l[len("#EXT-X-MEDIA-SEQUENCE:"):])
+		}
+		if strings.HasPrefix(l, "/s/") {
+			n, _ := strconv.Atoi(l[3 : len(l)-3])
+			nums = append(nums, n)
+		}
+	}
+	symapi.Assert(len(nums) == 3, "exactly-three-entries")
+	symapi.Assert(mseq >= base && mseq <= base+rolls, "media-sequence-is-a-window-start")
+	for i, n := range nums {
+		symapi.Assert(n == mseq+i, "entries-consecutive-from-media-sequence")
+	}
+	symapi.Reach("end")
+}
